@@ -44,6 +44,18 @@ CHECKS = {
             "Exploration: for every payload type, full-domain values must either be refused or decode back to themselves (1/256 s resolution for DeviceTimeAns), and in-range values must be accepted; streams of commands (incl. payload-less and unknown CIDs) must encode to the model framing and decode to exactly the sequence in FOpts and on port 0; histories of register/lookup/stream operations must agree with a model of the registry. Known finding K2 is excluded by class and counted.",
             "Trusted: field ranges and framing rule of harness/internal/ref/wire.go; the verif hook VerifResetMACPayloadRegistry.",
             "DESIGN.md §4 C07"),
+    "C12": ("exhaustive enumeration of 56 band configurations x every uplink channel index x the complete (DR -2..16, offset -2..9) grid against an independent regional-rule model; rapid-generated DevAddr x beacon-time cases for the ping-slot rule",
+            "Exploration, complete for the RX1 channel, RX1 data-rate, invalid-argument and RX2 dimensions (every configuration, channel index and (DR, offset) pair of the stated grid in both tiers): in-domain pairs must equal the region's formula, invalid pairs must give an error (never a panic), every accepted pair must map to a data-rate with the downlink flag (snapshot hook), rows must be monotonic with at most one defined downlink DR per offset step. The DevAddr x beacon-time dimension of the ping-slot rule is sampled.",
+            "Trusted: regional rules in harness/internal/ref/bandrules.go (written from the Regional Parameters from memory, cross-checked against the tree; two cells where published sources disagree - IN865 DR5/offset 7, CN470 DR6/7 rows - accept both readings); the verif snapshot hook.",
+            "DESIGN.md §4 C12"),
+    "C13": ("exhaustive enumeration over 56 configurations of every data-rate index source, DR x direction lookups (32-fold because the implementation iterates a map), the 7 x 8 x 16 version/revision/DR grid and every internal table cell (snapshot hook), against table-wide relations and regional constants",
+            "Exploration, complete: the stated domain is finite and fully enumerated in both tiers: closure of data-rate references, parameter lookup round trip, latest/unknown resolution, M = N+8 and N <= 242 (or the (0,0) not-available marker at its three legitimate places), repeater <= non-repeater, per-direction SF monotonicity, default channels / DR definitions / TX power / RX2 against the rule model. Payload-size values are judged only through the relations the property lists (no golden copy).",
+            "Trusted: bandrules constants (US915 TX-power range accepts both published ranges), the verif snapshot hook being a faithful copy of the internal tables.",
+            "DESIGN.md §4 C13"),
+    "C17": ("exhaustive Frequency / Percentage sweeps, rapid-generated HEXBytes, ISO8601Time, reflectively filled payload structs and key envelopes; round trip under stated equivalences; differential against an RFC 3394 model incl. all single-bit corruptions",
+            "Exploration with exhaustive parts: every integer percent -10..200, every Hz up to 2 MHz (20 MHz thorough), the 100 Hz raster of the LoRa bands (up to 2^32 thorough) and the 2^32 boundary must survive json.Marshal/Unmarshal; generated values of the 20 payload structs and their building blocks must round-trip field by field (nil == empty, RawMessage JSON-semantic, instants to one second); NewKeyEnvelope must equal the reference wrap and Unwrap must succeed exactly when the reference integrity check does (all 192 bit flips, other KEKs).",
+            "Trusted: ref.KeyWrap/KeyUnwrap (RFC 3394 vectors self-checked), own civil-date arithmetic for timestamps.",
+            "DESIGN.md §4 C17"),
     "C16": ("rapid-generated worlds and requests through http.Handler.ServeHTTP judged by an independent end-device + network-server model; generated concurrent batches under the race detector compared with sequential answers",
             "Exploration: generated devices, KEK tables and join / rejoin 0-1-2 / HomeNS requests (plus bit-flip, wrong-key, unknown-device and 16 kinds of malformed requests) are served by the handler; the device model decrypts the join-accept, verifies the MIC, checks the echoed fields, unwraps the envelopes (RFC 3394 model) and compares the session keys with its own 1.0 / 1.1 derivation. The -race binary serves batches of 2..16 requests concurrently and requires answers byte-identical to sequential service. Known finding K4 (rejoin keys derived 1.0-style) is accepted as exactly one alternative key set and reported.",
             "Trusted: ref crypto models (CMAC, key wrap, join blocks), wire model; observed handler conventions listed in the package comment (NS KEK label = SenderID, JoinEUI = ReceiverID).",
